@@ -243,7 +243,12 @@ class Disp:
 
 
 def _sid(cfg):
-    return z3.IntVal(int(cfg.get("sid", 0)))
+    """identity of a step instance inside the product terms: its position id AND a fingerprint of every other configuration entry the
+    instance was built with (so that an object left over from another pipeline, or a configuration entry that changed between two
+    runs, shows in the products)"""
+    import zlib
+    rest = sorted((str(k), repr(v)) for k, v in cfg.items() if k != "sid")
+    return z3.IntVal(int(cfg.get("sid", 0)) * 1000003 + zlib.crc32(repr(rest).encode()) % 1000003)
 
 
 def _log(kind, cfg, side, **kw):
@@ -484,6 +489,7 @@ def make_cfg_named(other, word):
         if kind in byname and i < len(byname[kind]):
             kk, vv = byname[kind][i]
             out[kk] = copy.deepcopy(vv)
+            out[kk]["history_marker"] = 1          # same key and id as in `word`, but a different parameter value
         else:
             v = dict(v); v["sid"] = 100 + len(out)
             out[k if k not in out else k + ".z"] = v
@@ -737,7 +743,8 @@ def run_words(words, histories=True, mirror=True, ms_variants=((2, 2),), suffix_
                     if histories and isinstance(l1, Disp):
                         # second run on the same machine: same log, same terms
                         try:
-                            l2, r2, log2 = do_run(m, L, R, copy.deepcopy(cfg))
+                            # the caller hands the SAME configuration object to the second run (whatever the first run wrote into it)
+                            l2, r2, log2 = do_run(m, L, R, c1)
                             same_log = _actual_log(log2, nsc) == act
                             pairs = list(zip(l1.terms(), l2.terms()))
                             if has_val and isinstance(r1, Disp) and isinstance(r2, Disp):
